@@ -31,6 +31,8 @@ type Harness struct {
 	ReplayCustom func(c *Ctx, choices []int) []mc.Violation
 	// OnlyTier restricts the harness to one tier ("" = both).
 	OnlyTier string
+	// ShardDepth: number of leading choices that decide the owning shard (0 = 2).
+	ShardDepth int
 }
 
 // Ctx is what a Custom harness gets.
